@@ -42,6 +42,12 @@ func replayFsck(c *core.Ctx, lfsBin string, b *behaviour, idx int) (*core.Violat
 		if handled {
 			continue
 		}
+		if s.str("a") == "stage" {
+			if err := w.Stage(s.str("p"), s.str("oid")); err != nil {
+				return nil, fmt.Errorf("step %d %v: %v", i, s, err)
+			}
+			continue
+		}
 		if s.str("a") != "fsck" {
 			return nil, fmt.Errorf("unknown step %v", s)
 		}
@@ -57,8 +63,11 @@ func replayFsck(c *core.Ctx, lfsBin string, b *behaviour, idx int) (*core.Violat
 		case "dry-run":
 			args = append(args, "--dry-run")
 		}
-		if s.str("scope") == "tip" {
+		switch s.str("scope") {
+		case "tip":
 			args = append(args, "HEAD^..HEAD")
+		case "tip2":
+			args = append(args, "HEAD~2..HEAD")
 		}
 		w.logf("git %s", strings.Join(args, " "))
 		r := w.Env.RunIn(w.Clone, nil, nil, 120*time.Second, "git", args...)
@@ -150,7 +159,7 @@ func init() {
 		c.Set("transitions", r.Generated)
 		actionsSeen = map[string]int{}
 		bs, total, nclasses := sampleFsck(c, r.OutFile, budget)
-		requireActions(c, "commit", "damage", "fsck")
+		requireActions(c, "commit", "damage", "stage", "fsck")
 		c.Set("fsck_edges_emitted", total)
 		c.Set("behaviour_classes", nclasses)
 		c.Logf("replaying %d of %d fsck-edge behaviours (%d classes)", len(bs), total, nclasses)
@@ -158,7 +167,7 @@ func init() {
 		c.Set("traces_validated_against_impl", len(bs))
 		c.Set("evaluations", len(bs))
 		c.Set("distinct_nontrivial", len(bs))
-		c.Set("rule", "behaviours = per-edge output of spec/Fsck.tla for every edge ending in an fsck; one per class (flag x scope x numbers of missing / corrupt / bad-pointer findings x damage kinds used x features)")
+		c.Set("rule", "behaviours = per-edge output of spec/Fsck.tla for every edge ending in an fsck; one per class (flag x scope {HEAD + index, HEAD^..HEAD, HEAD~2..HEAD} x numbers of missing / corrupt / bad-pointer findings x damage kinds used x features incl. a staged new version)")
 		for i := 0; i < len(bs); i += len(bs)/4 + 1 {
 			c.Sample(json.RawMessage(bs[i].raw))
 		}
@@ -186,6 +195,8 @@ func sampleFsck(c *core.Ctx, file string, budget int) ([]*behaviour, int, int) {
 				feat["d:"+s.str("how")] = true
 			case "merge":
 				feat["merge"] = true
+			case "stage":
+				feat["stage"] = true
 			case "commit":
 				if s.str("b") != "main" {
 					feat["branch"] = true
